@@ -54,7 +54,7 @@ def verify_chromosome_h5_cache(
         genes_input_file (str): The file path of the file that was used to
             generate the gene_data instance.
         tes_input_file (str): The file path of the file that was used to
-            generate the TransposonData instance.
+            generate the TransposonData instance (the revised TE annotation).
         chrom_id (str): A string representation of the current chromosome. Used
         to name each H5 file.
     """
@@ -70,14 +70,16 @@ def verify_chromosome_h5_cache(
         gene_h5_time = os.path.getmtime(g_filepath)
         te_h5_time = os.path.getmtime(t_filepath)
 
-        if (gene_annot_time > gene_h5_time) and (te_annot_time > te_h5_time):
+        if (gene_annot_time >= gene_h5_time) or (te_annot_time >= te_h5_time):
+            # NB either cache older than its source makes the pair stale, the
+            # two files are always written together
             logger.info("cache is too old for chromosome '%s'" % chrom_id)
             logger.info("write: %s" % g_filepath)
             logger.info("write: %s" % t_filepath)
             gene_data_obj.write(g_filepath)
             te_data_obj.write(t_filepath)
 
-        elif (gene_annot_time < gene_h5_time) and (te_annot_time < te_h5_time):
+        else:
             # No need to re-write a current cache
             return
 
